@@ -4,7 +4,9 @@ package main
 
 import (
 	"fmt"
+	"go/ast"
 	"go/constant"
+	goparser "go/parser"
 	"go/types"
 	"strings"
 )
@@ -20,6 +22,7 @@ type Env struct {
 	bound  map[string]Val
 	pkg    *types.Package
 	inOld  bool
+	callSite bool // evaluating a callee's contract at a call site: the callee's ghost state is not visible
 }
 
 func (env *Env) cur() *State {
@@ -184,22 +187,63 @@ func (env *Env) eval(x *Expr) Val {
 }
 
 func (env *Env) resolveType(s string) types.Type {
-	pkg := env.pkg
-	if pkg == nil {
-		pkg = env.e.rootPkg
-	}
-	// allow package-qualified names of imported packages and of the repo packages
-	tv, err := types.Eval(env.e.fset, pkg, 0, s)
+	x, err := goparser.ParseExpr(s)
 	if err != nil {
-		// try the other repo packages
-		for _, p := range env.e.repoPkgs {
-			if tv2, err2 := types.Eval(env.e.fset, p, 0, s); err2 == nil {
-				return tv2.Type
+		efail("cannot parse type %q: %v", s, err)
+	}
+	return env.typeFromAST(x, s)
+}
+
+func (env *Env) typeFromAST(x ast.Expr, src string) types.Type {
+	e := env.e
+	switch t := x.(type) {
+	case *ast.Ident:
+		if o := types.Universe.Lookup(t.Name); o != nil {
+			if tn, ok := o.(*types.TypeName); ok {
+				return tn.Type()
 			}
 		}
-		efail("cannot resolve type %q: %v", s, err)
+		pkgs := []*types.Package{}
+		if env.pkg != nil {
+			pkgs = append(pkgs, env.pkg)
+		}
+		pkgs = append(pkgs, e.repoPkgs...)
+		for _, p := range pkgs {
+			if o := p.Scope().Lookup(t.Name); o != nil {
+				if tn, ok := o.(*types.TypeName); ok {
+					return tn.Type()
+				}
+			}
+		}
+	case *ast.SelectorExpr:
+		if id, ok := t.X.(*ast.Ident); ok {
+			for _, p := range e.prog.AllPackages() {
+				if p.Pkg.Name() == id.Name {
+					if o := p.Pkg.Scope().Lookup(t.Sel.Name); o != nil {
+						if tn, ok := o.(*types.TypeName); ok {
+							return tn.Type()
+						}
+					}
+				}
+			}
+		}
+	case *ast.StarExpr:
+		return types.NewPointer(env.typeFromAST(t.X, src))
+	case *ast.ArrayType:
+		if t.Len == nil {
+			return types.NewSlice(env.typeFromAST(t.Elt, src))
+		}
+	case *ast.MapType:
+		return types.NewMap(env.typeFromAST(t.Key, src), env.typeFromAST(t.Value, src))
+	case *ast.InterfaceType:
+		if t.Methods == nil || len(t.Methods.List) == 0 {
+			return types.NewInterfaceType(nil, nil)
+		}
+	case *ast.ParenExpr:
+		return env.typeFromAST(t.X, src)
 	}
-	return tv.Type
+	efail("cannot resolve type %q", src)
+	return nil
 }
 
 func (env *Env) ident(name string) Val {
@@ -234,7 +278,7 @@ func (env *Env) ident(name string) Val {
 		}
 	}
 	st := env.cur()
-	if st != nil {
+	if st != nil && !env.callSite {
 		if v, ok := st.lets[name]; ok {
 			return v
 		}
@@ -609,6 +653,9 @@ func (env *Env) call(x *Expr) Val {
 		}
 		return boolVal("false")
 	case "calls":
+		if env.callSite {
+			efail("calls() refers to the callee's own activation")
+		}
 		var n string
 		switch x.Args[0].Op {
 		case "ident", "str":
@@ -644,6 +691,9 @@ func (env *Env) call(x *Expr) Val {
 		arr := e.heapArr(st, "oncedone", arraySort(SU, SBool))
 		return boolVal(mkSelect(arr, mkApp(fn, loc.Obj)))
 	case "didpanic":
+		if env.callSite {
+			efail("didpanic() refers to the callee's own activation")
+		}
 		if g, ok := st.ghost["$panicked"]; ok {
 			return boolVal(g)
 		}
@@ -674,6 +724,19 @@ func (env *Env) call(x *Expr) Val {
 		}
 		t := env.resolveType(x.Args[1].Name)
 		return e.unbox(a, t)
+	case "strcat":
+		a := env.eval(x.Args[0])
+		b := env.eval(x.Args[1])
+		return Val{T: types.Typ[types.String], L: []string{mkApp("strcat", a.term(), b.term())}}
+	case "box":
+		a := env.eval(x.Args[0])
+		if a.T == nil {
+			efail("box() needs a typed value")
+		}
+		if isInterface(a.T) {
+			return a
+		}
+		return e.makeIface(st, a, types.NewInterfaceType(nil, nil))
 	case "isfn":
 		// isfn(v, "name"): the func value v is statically known to be function/closure `name`
 		a := env.eval(x.Args[0])
